@@ -31,9 +31,9 @@ CHECKS = {
          "Stage B is exhaustive over 31 x 2046 x (64+63) cases; stages A and C enumerate all codable events / INTRADC codes / DQUANT updates, DQUANT chains of length 2-3 and Sorenson version-mix histories.", "3 C11"),
  "C12": ("exhaustive directed P pictures over an identifiable textured reference (zero residual), compared with the model prediction",
          "Exhaustive for the 64 x 64 predictor/differential pairs per component and all four-vector sums; neighbour configurations are enumerated by class with random vectors; wide pictures and mode histories are sampled.", "3 C12"),
- "C13": ("end-to-end pipeline monitor (decode -> deblock x3 -> convert) over every picture size in a dense box; chk (debug assertions live), release, ASan",
+ "C13": ("end-to-end pipeline monitor (decode -> deblock x3 -> convert) over every picture size in a dense box; chk (debug assertions live), release, ASan (thorough: + coverage-guided libFuzzer campaign on the case generator's decision tape)",
          "Held-on-observed for every size in the box and the fixed formats, intra and predicted pictures, second pictures of another size on the same decoder, and a sample-count ladder beyond 2^24.", "3 C13"),
- "C14": ("operation histories checked in lockstep against a bit-vector sequential model, with the reader-position hook; bounded-exhaustive short sequences + random trees",
+ "C14": ("operation histories checked in lockstep against a bit-vector sequential model, with the reader-position hook; bounded-exhaustive short sequences + random trees; chunked, growing and interrupting sources (thorough: + coverage-guided libFuzzer campaign on the case generator's decision tape)",
          "Held-on-observed: every value, error and absolute position agreed with the model; start-code recognition judged on the property's own terms.", "3 C14"),
  "C15": ("twin-run comparison (shared reader vs one reader per picture) + reader-position window check after every call (thorough: + coverage-guided libFuzzer campaign on the case generator's decision tape)",
          "Held-on-observed for generated sequences of 2-8 pictures in both modes with all eight end-of-data bit phases (standard mode also with early-ending and format-less pictures).", "3 C15"),
